@@ -143,7 +143,9 @@ CLAIMED = {
              "post-processing produces data, and keeps present members); a schema without references is resolved to itself at every "
              "fuel, so the only in-place write of validation (reference expansion) never happens on it. Tie: deep snapshots of the "
              "instance, typed values and reference-free schemas before and after every call, through validator objects and AgainstSchema; "
-             "document-level snapshots belong to the spec-level checks.",
+             "document level: doc.Raw() bytes and the JSON form of doc.Spec() before and after SpecValidator.Validate on fixtures and "
+             "grammar documents (accepted, not self-referential: must be unchanged; recorded finding: $ref nodes of definitions expanded "
+             "in place by the default / example validators).",
         note=TB + "No axioms. A Go statement writing through an alias the model does not represent is caught only by the snapshots.",
         tech="Rocq proof (effect abstraction: reference-free schemas are never expanded) + before/after snapshot correspondence",
         ref="DESIGN.md 5/C12"),
